@@ -121,6 +121,10 @@ def env_for(variant, builddir, extra=None):
     e['VERIF_BUILD_DIR'] = builddir
     e['VERIF_VARIANT'] = variant
     e.setdefault('OMP_NUM_THREADS', '1')
+    # glibc fills every block handed out by malloc/realloc with 0x5A and every freed block with 0xA5: a read of heap memory the library
+    # never wrote, or of a freed block, then yields 1.4e127 / NaN-like garbage instead of whatever happened to be there (usually zeros),
+    # so the numerical oracles of every check see it.  (The sanitizer builds bring their own allocator and ignore the variable.)
+    e.setdefault('MALLOC_PERTURB_', '165')
     e['OPENBLAS_NUM_THREADS'] = '1'
     if variant == 'asan':
         e['LD_PRELOAD'] = asan_runtime()
